@@ -403,12 +403,47 @@ def versions_of(case):
 
 
 def apply_edit(qc, cur_ops, new_ops, how):
-    """edit the circuit object IN PLACE so that it reads `new_ops` (same number of operations): `assign` re-assigns
+    """edit the circuit object IN PLACE so that it reads `new_ops`: one operation appended / inserted at an index
+    (add_gate, add_measurement), one removed (remove_gate_or_measurement), or — same number of operations — `assign`
+    re-assigns
     targets / controls / classical_controls / classical_control_value of the gate object where the gate keeps its
     name, otherwise (and with `replace`) the operation
     is removed and a new one added at the same position through the public API"""
+    def add_op(b, i, append=False):
+        idx = {} if append else {"index": [i]}
+        if "g" in b:
+            nc = NCTRL[b["g"]]
+            kw = {}
+            if b["cc"] is not None:
+                kw["classical_controls"] = list(b["cc"])
+                kw["classical_control_value"] = b["ccv"]
+            qc.add_gate(GATE_NAMES[b["g"]], targets=list(b["q"][nc:]), controls=(list(b["q"][:nc]) if nc else None),
+                        **idx, **kw)
+        else:
+            qc.add_measurement("M", targets=[b["m"]], classical_store=b["store"], **idx)
+
+    if len(new_ops) == len(cur_ops) + 1:
+        # one operation added: appended (no index) or inserted at its position
+        i = next((k for k in range(len(cur_ops)) if cur_ops[k] != new_ops[k]), len(cur_ops))
+        if cur_ops[i:] != new_ops[i + 1:]:
+            raise ValueError("edit: not a single insertion")
+        add_op(new_ops[i], i, append=(i == len(cur_ops) and how != "replace"))
+        return
+    if len(new_ops) == len(cur_ops) - 1:
+        i = next((k for k in range(len(new_ops)) if cur_ops[k] != new_ops[k]), len(new_ops))
+        if cur_ops[i + 1:] != new_ops[i:]:
+            raise ValueError("edit: not a single removal")
+        qc.remove_gate_or_measurement(index=i)
+        return
+    if len(new_ops) != len(cur_ops):
+        raise ValueError("edit: more than one operation added or removed")
     for i, (a, b) in enumerate(zip(cur_ops, new_ops)):
         if a == b:
+            continue
+        if how == "assign" and "m" in a and "m" in b:
+            # the Measurement object keeps its place, target and classical_store are re-assigned
+            qc.gates[i].targets = [b["m"]]
+            qc.gates[i].classical_store = b["store"]
             continue
         if how == "assign" and "g" in a and "g" in b and a["g"] == b["g"]:
             nc = NCTRL[b["g"]]
